@@ -46,6 +46,7 @@ def parse(s):
         elif tok.startswith('+') and '@' in tok: a, i = tok[1:].split('@'); out.append(('addf', a, int(i)))
         elif tok.startswith('+'): out.append(('add', tok[1:]))
         elif tok.startswith('-#'): out.append(('rm', int(tok[2:])))
+        elif tok.startswith('-k'): out.append(('rmk', int(tok[2:])))
         elif tok.startswith('#'): j, b = tok[1:].split(':='); out.append(('rep', int(j), b))
         elif tok.endswith('=None'): out.append(('unset', tok[1:-5]))
         elif tok.startswith('.'): out.append(('set', tok[1:]))
